@@ -24,6 +24,25 @@ type TxOpts struct {
 	PubKeyOf    crypto.PrivateKey // put this key's public key into the signature (and sign with it) — "signed by another key"
 	CorruptSig  bool
 	NoSig       bool
+	// RawSig: use these signature bytes instead of signing (e.g. a valid signature copied from another transaction)
+	RawSig []byte
+}
+
+// SigFor returns the signature bytes BuildTx would put into the transaction for (msg, key, o) without the hostile variations.
+func SigFor(msg sdk.ProtoMsg, key crypto.PrivateKey, o TxOpts) []byte {
+	f := fee(o.Fee)
+	if o.Fee == 0 {
+		f = sdk.Coins{}
+	}
+	sb, err := auth.StdSignBytes(o.ChainID, o.Entropy, f, msg, o.Memo)
+	if err != nil {
+		panic(err)
+	}
+	sig, err := key.Sign(sb)
+	if err != nil {
+		panic(err)
+	}
+	return sig
 }
 
 func fee(n int64) sdk.Coins {
@@ -60,6 +79,9 @@ func BuildTx(msg sdk.ProtoMsg, key crypto.PrivateKey, o TxOpts) []byte {
 	}
 	if o.CorruptSig {
 		sigBz[len(sigBz)/2] ^= 0x40
+	}
+	if o.RawSig != nil {
+		sigBz = append([]byte{}, o.RawSig...)
 	}
 	sig := authTypes.StdSignature{PublicKey: pubKey, Signature: sigBz}
 	if o.NoSig {
